@@ -19,6 +19,27 @@ use std::time::Duration;
 /// while a loop that never looks at the clock overruns by the size of the remaining subtree.
 pub const OVERRUN_LIMIT: u64 = 2048;
 
+/// Work between two looks at the clock must be bounded too: counting nodes cannot see a single node
+/// that computes for seconds (an exchange evaluator trying every capture order, say). Every
+/// interrupted search of the C07 sweeps is therefore also timed in CPU time of its own thread
+/// (not wall time, so a busy machine does not matter) and must stay within
+/// WORK_PER_NODE_US x (nodes it visited) + WORK_BASE_MS. The engine needs 1-3 us per node; the
+/// bound is two orders of magnitude above that.
+pub const WORK_PER_NODE_US: u64 = 200;
+pub const WORK_BASE_MS: u64 = 25;
+
+/// Positions in which a single node has as much to do as chess allows: one square contested by up
+/// to seven men a side, the largest known number of legal moves, every man pinned or hanging.
+pub const DENSE_POSITIONS: &[(&str, &str)] = &[
+    ("d5 contested by seven men a side", "3r2k1/1bnqn3/1n2pn2/3p4/1NP2N2/2N1N3/3Q2B1/3R2K1 w - - 0 1"),
+    ("d5 contested by five men a side", "3r2k1/1b1qn3/4pn2/3p4/1NP2N2/2N5/3Q2B1/6K1 w - - 0 1"),
+    ("d5 contested, black to move", "3r2k1/1bnqn3/1n2pn2/3p4/1NP2N2/2N1N3/3Q2B1/3R2K1 b - - 0 1"),
+    ("218 legal moves", "R6R/3Q4/1Q4Q1/4Q3/2Q4Q/Q4Q2/pp1Q4/kBNN1KB1 w - - 0 1"),
+    ("six queens against a bare king", "1k6/8/8/8/8/2QQQQ1Q/8/Q3K3 w - - 0 1"),
+    ("kiwipete", "r3k2r/p1ppqpb1/bn2pnp1/3PN3/1p2P3/2N2Q1p/PPPBBPPP/R3K2R w KQkq - 0 1"),
+    ("every file half open, heavy pieces doubled", "2rr2k1/1q3ppp/8/8/8/8/1Q3PPP/2RR2K1 w - - 0 1"),
+];
+
 pub const SWEEP_POSITIONS: &[(&str, &str)] = &[
     ("K+P v k", "8/8/8/4k3/8/4K3/4P3/8 w - - 0 1"),
     ("K+R v k", "8/8/8/4k3/8/8/8/R3K3 w - - 0 1"),
@@ -62,7 +83,7 @@ fn total_nodes(b: &Board, d: u8, cap: u64) -> Option<u64> {
     let fen = eng::fen_of(b);
     let _job = crate::watch::enter(
         format!("C07 fen={} depth={} no-answer", fen, d),
-        format!("{:?} depth {}: search with a budget of {} nodes did not answer after {} s of wall time (the search does not stop)", fen, d, cap, crate::watch::LIMIT_S),
+        format!("{:?} depth {}: search with a budget of {} nodes did not answer after {} s of CPU time (the search does not stop)", fen, d, cap, crate::watch::LIMIT_S),
         vec!["c07-one".to_string(), "--fen".into(), fen.clone(), "--depth".into(), d.to_string(), "--at".into(), cap.to_string()],
     );
     let r = guard(|| {
@@ -79,6 +100,8 @@ fn total_nodes(b: &Board, d: u8, cap: u64) -> Option<u64> {
 pub struct SweepResult {
     pub deadline_hit: bool,
     pub overrun: u64,
+    /// CPU microseconds per visited node of the slowest interrupted search of this point
+    pub us_per_node: u64,
 }
 
 /// One crash point: fresh searcher, search interrupted at node N (several interruptions if
@@ -93,7 +116,7 @@ pub fn one_point(which: &str, cache: &RefCache, mg: &MoveGenerator, rep: &Report
 pub fn one_point_to(which: &str, cache: &RefCache, mg: &MoveGenerator, rep: &Report, name: &str, fen: &str, b: &Board, d: u8, fd: u8, ns: &[u64], check_value: bool) -> SweepResult {
     if rep.violation_count.load(Ordering::Relaxed) >= 5 {
         // enough evidence: do not spend time on further crash points of a failing tree
-        return SweepResult { deadline_hit: false, overrun: 0 };
+        return SweepResult { deadline_hit: false, overrun: 0, us_per_node: 0 };
     }
     crate::timer::verif::set_node_clock(Some(1));
     let ns_text = ns.iter().map(|n| n.to_string()).collect::<Vec<_>>().join(",");
@@ -110,7 +133,7 @@ pub fn one_point_to(which: &str, cache: &RefCache, mg: &MoveGenerator, rep: &Rep
     ];
     let _job = crate::watch::enter(
         format!("{} fen={} depth={} no-answer", which, fen, d),
-        format!("{} ({:?}) depth {}: deadline at node(s) {} but no answer after {} s of wall time (the search does not stop)", name, fen, d, ns_text, crate::watch::LIMIT_S),
+        format!("{} ({:?}) depth {}: deadline at node(s) {} but no answer after {} s of CPU time (the search does not stop)", name, fen, d, ns_text, crate::watch::LIMIT_S),
         args.clone(),
     );
     let r = guard(|| {
@@ -119,8 +142,15 @@ pub fn one_point_to(which: &str, cache: &RefCache, mg: &MoveGenerator, rep: &Rep
         let mut hit = false;
         let mut worst_overrun = 0u64;
         let mut rep_changed = None;
+        let mut work: Option<(u64, u64, u64)> = None; // (cpu us, nodes, deadline) of the costliest search per node
         for n in ns {
+            let c0 = crate::cputime::thread_cpu();
             s.find_best_move(b, d, Some(Duration::from_millis(*n)));
+            let cpu_us = crate::cputime::thread_cpu().saturating_sub(c0).as_micros() as u64;
+            let nodes_now = s.verif_nodes().max(1);
+            if work.map(|(c, v, _)| cpu_us * v > c * nodes_now).unwrap_or(true) {
+                work = Some((cpu_us, nodes_now, *n));
+            }
             // under the node clock the deadline falls exactly at node n: everything visited
             // beyond it is work done after the budget expired -- whether or not the search ever
             // asked the clock (a search that stops consulting it must not look punctual)
@@ -136,14 +166,26 @@ pub fn one_point_to(which: &str, cache: &RefCache, mg: &MoveGenerator, rep: &Rep
         crate::search::verif::reset_tt_cutoffs();
         let fin = if check_value { Some(s.find_best_move(b, fd, None)) } else { None };
         let deeper = crate::search::verif::tt_cutoffs().1;
-        (hit, worst_overrun, rep0, rep_changed, fin, deeper)
+        (hit, worst_overrun, rep0, rep_changed, fin, deeper, work)
     });
     match r {
         Err(e) => {
             rep.violation(format!("{} fen={} depth={} at={} panic", which, fen, d, ns_text), format!("{} ({:?}) depth {} interrupted at node(s) {}: {}", name, fen, d, ns_text, e), args, J::Null);
-            SweepResult { deadline_hit: false, overrun: 0 }
+            SweepResult { deadline_hit: false, overrun: 0, us_per_node: 0 }
         }
-        Ok((hit, overrun, rep0, rep_changed, fin, deeper)) => {
+        Ok((hit, overrun, rep0, rep_changed, fin, deeper, work)) => {
+            let (cpu_us, visited, at) = work.unwrap_or((0, 1, 0));
+            if which == "C07" && cpu_us > WORK_PER_NODE_US * visited + WORK_BASE_MS * 1000 {
+                rep.violation(
+                    format!("C07 fen={} depth={} work-per-node", fen, d),
+                    format!(
+                        "{} ({:?}) depth {}: a search with its deadline at node {} consumed more than {} us of CPU per visited node (+{} ms): the work done between two looks at the clock is not small (the engine needs 1-3 us per node)",
+                        name, fen, d, at, WORK_PER_NODE_US, WORK_BASE_MS
+                    ),
+                    args.clone(),
+                    J::obj().set("cpu_us", cpu_us).set("nodes_visited", visited).set("deadline_node", at),
+                );
+            }
             if which == "C07" && overrun > OVERRUN_LIMIT {
                 rep.violation(
                     format!("C07 fen={} depth={} overrun", fen, d),
@@ -172,7 +214,7 @@ pub fn one_point_to(which: &str, cache: &RefCache, mg: &MoveGenerator, rep: &Rep
                     }
                 }
             }
-            SweepResult { deadline_hit: hit, overrun }
+            SweepResult { deadline_hit: hit, overrun, us_per_node: cpu_us / visited }
         }
     }
 }
@@ -206,7 +248,7 @@ pub fn command_point(cache: &RefCache, mg: &MoveGenerator, rep: &Report, name: &
     let args = vec!["c06-cmd".to_string(), "--fen".into(), fen.to_string(), "--final-depth".into(), fd.to_string(), "--mode".into(), mode.to_string(), "--at".into(), n.to_string()];
     let _job = crate::watch::enter(
         format!("C06 fen={} final-depth={} {:?} no-answer", fen, fd, go),
-        format!("{} ({:?}): {:?} did not answer after {} s of wall time", name, fen, go, crate::watch::LIMIT_S),
+        format!("{} ({:?}): {:?} did not answer after {} s of CPU time", name, fen, go, crate::watch::LIMIT_S),
         args.clone(),
     );
     let r = guard(|| {
@@ -386,7 +428,7 @@ pub fn go_history(rep: &Report, cmds: &[(String, Option<Option<u64>>)]) -> (u64,
     crate::timer::verif::set_node_clock(Some(1));
     let text = cmds.iter().map(|c| c.0.clone()).collect::<Vec<_>>().join(" | ");
     let args = vec!["c07-go".to_string(), "--cmds".into(), cmds.iter().map(|c| c.0.clone()).collect::<Vec<_>>().join("|")];
-    let _job = crate::watch::enter(format!("C07 go-history [{}] no-answer", text), format!("[{}]: a go command did not answer within {} s of wall time", text, crate::watch::LIMIT_S), args.clone());
+    let _job = crate::watch::enter(format!("C07 go-history [{}] no-answer", text), format!("[{}]: a go command did not answer within {} s of CPU time", text, crate::watch::LIMIT_S), args.clone());
     let r = guard(|| {
         let mut fl = crate::uci::Flounder::new();
         let mut judged = Vec::new();
@@ -528,6 +570,8 @@ pub fn replay_go(cmds: &str) -> i32 {
 // verdict): only overruns of seconds are reported.
 
 pub const REAL_ALLOWANCE_MS: u64 = 2500;
+/// beyond budget + allowance of wall time the engine is waited for this much longer before "no answer"
+pub const REAL_WALL_SLACK_MS: u64 = 60_000;
 
 pub const REAL_PRIORS: &[(&str, &[&str])] = &[
     ("nothing before", &[]),
@@ -572,21 +616,29 @@ pub fn real_history(rep: &Report, exe: &str, prior: &[&str], target: &str, go: &
         rep.violation(format!("C07 real-clock [{}] prior-no-answer", text), format!("[{}]: the commands before the timed go were not finished after 180 s of real time", text), args, J::Null);
         return None;
     }
+    let cpu0 = crate::cputime::process_cpu(s.pid()).map(|(c, _)| c);
     let t0 = std::time::Instant::now();
     s.send(go);
-    let horizon = Duration::from_millis(budget + REAL_ALLOWANCE_MS + 10_000);
+    // The verdict is on the CPU time the engine itself consumed between the go and its bestmove
+    // (an engine that stops at its deadline cannot have computed for longer than its budget, however
+    // busy the machine is); wall time decides only at a distance no scheduler delay explains.
+    let horizon = Duration::from_millis(budget + REAL_ALLOWANCE_MS + REAL_WALL_SLACK_MS);
     match s.wait_for("bestmove", horizon) {
         Some((_, t)) => {
             let ms = t.duration_since(t0).as_millis() as u64;
-            if ms > budget + REAL_ALLOWANCE_MS {
+            let cpu_ms = match (cpu0, crate::cputime::process_cpu(s.pid()).map(|(c, _)| c)) {
+                (Some(a), Some(b)) => b.saturating_sub(a).as_millis() as u64,
+                _ => ms,
+            };
+            if cpu_ms > budget + REAL_ALLOWANCE_MS {
                 rep.violation(
                     format!("C07 real-clock [{}] late", text),
-                    format!("[{}]: {:?} has a budget of {} ms but was answered after {} ms of real time (allowance {} ms)", text, go, budget, ms, REAL_ALLOWANCE_MS),
+                    format!("[{}]: {:?} has a budget of {} ms but the engine computed for longer than budget + {} ms before answering", text, go, budget, REAL_ALLOWANCE_MS),
                     args,
-                    J::Null,
+                    J::obj().set("cpu_ms", cpu_ms).set("wall_ms", ms),
                 );
             }
-            Some(ms)
+            Some(cpu_ms.min(ms))
         }
         None => {
             rep.violation(
@@ -638,7 +690,7 @@ fn real_clock_part(rep: &Report, exe: &str) -> (J, u64) {
             .set("earlier_commands", REAL_PRIORS.iter().map(|p| p.0.to_string()).collect::<Vec<_>>())
             .set("positions", REAL_TARGETS.iter().map(|p| p.to_string()).collect::<Vec<_>>())
             .set("timed_commands", REAL_GOS.iter().map(|g| g.0.to_string()).collect::<Vec<_>>())
-            .set("rule", "history = earlier commands; position; isready (wait for readyok); budgeted go, timed from sending it to its bestmove line in real time; late = more than budget + allowance. Coarse on purpose: the node-clock parts decide punctuality to the node, this part only that the code reading the real clock is not broken by seconds"),
+            .set("rule", "history = earlier commands; position; isready (wait for readyok); budgeted go, timed from sending it to its bestmove line in real time; late = the engine consumed more CPU time than budget + allowance between the go and its bestmove (or did not answer within a further minute of real time). Coarse on purpose: the node-clock parts decide punctuality to the node, this part only that the code reading the real clock is not broken by seconds"),
         jobs.len() as u64,
     )
 }
@@ -831,6 +883,39 @@ pub fn run(which: &'static str, tier: &str, seed: u64, out: &str, engine_plain: 
             }
         }
     }
+    let mut worst_us_per_node = 0u64;
+    if which == "C07" {
+        let n_cap: u64 = if thorough { 1500 } else { 250 };
+        for (name, fen) in DENSE_POSITIONS {
+            let b = board(fen);
+            for d in [1u8, 2] {
+                if rep.saturated() || rep.elapsed() > wall_cap {
+                    break;
+                }
+                let points: Vec<u64> = (0..=n_cap).collect();
+                let results: Vec<SweepResult> = par_map(&points, |n| one_point(which, &cache, &mg, &rep, name, fen, &b, d, &[*n], false));
+                let hits = results.iter().filter(|r| r.deadline_hit).count() as u64;
+                let mo = results.iter().map(|r| r.overrun).max().unwrap_or(0);
+                let wu = results.iter().map(|r| r.us_per_node).max().unwrap_or(0);
+                max_overrun = max_overrun.max(mo);
+                worst_us_per_node = worst_us_per_node.max(wu);
+                evaluations += points.len() as u64;
+                nontrivial += hits;
+                eprintln!("[C07] dense {:?} depth {}: {} deadlines, hit inside {}, max overrun {}, costliest search {} us of CPU per node ({:.1}s)", name, d, points.len(), hits, mo, wu, rep.elapsed());
+                per.push(
+                    J::obj()
+                        .set("position", *name)
+                        .set("fen", *fen)
+                        .set("depth", d)
+                        .set("deadlines_0_to", n_cap)
+                        .set("note", "a position in which single nodes have the most to do; every interrupted search is also bounded in CPU time per visited node")
+                        .set("deadline_fell_inside_search", hits)
+                        .set("max_nodes_after_deadline", mo)
+                        .set("costliest_search_cpu_us_per_node", wu),
+                );
+            }
+        }
+    }
     let mut real_part = J::Null;
     if which == "C07" && !rep.saturated() {
         if let Some(exe) = engine_plain {
@@ -854,6 +939,8 @@ pub fn run(which: &'static str, tier: &str, seed: u64, out: &str, engine_plain: 
         .set("real_clock", real_part)
         .set("rule", "a case = (position, depth, deadline node N) [C06 also (N1, N2)]: fresh Searcher, search interrupted exactly at node N under the node clock; non-trivial = the deadline actually fell inside the search; the budgeted go commands of the command-level histories count as cases too")
         .set("overrun_limit_nodes", OVERRUN_LIMIT)
+        .set("work_bound", format!("every interrupted search of the C07 sweeps: CPU time of its thread <= {} us x nodes visited + {} ms", WORK_PER_NODE_US, WORK_BASE_MS))
+        .set("costliest_dense_search_cpu_us_per_node", worst_us_per_node)
         .set("max_nodes_after_deadline_seen", max_overrun)
         .set("sweeps", J::Arr(per))
         .set("samples", J::Arr(samples))
@@ -865,7 +952,7 @@ pub fn run(which: &'static str, tier: &str, seed: u64, out: &str, engine_plain: 
         ]
     } else {
         vec![
-            "work is measured in nodes under the deterministic node clock, not in wall time; one node is one move generation + one evaluation, which is bounded".to_string(),
+            "work is measured in nodes under the deterministic node clock; that one node is a bounded amount of work is checked separately in CPU time of the searching thread (never wall time), with a bound two orders of magnitude above the engine's cost per node, on every interrupted search of the sweeps including positions built to make single nodes expensive".to_string(),
             format!("'small bounded amount' is taken as <= {} nodes", OVERRUN_LIMIT),
         ]
     };
